@@ -92,3 +92,11 @@ PROOFS = [
 # thorough tier: Q::fromFloat of the real header on every hundredth, its neighbours and values outside [0;1]
 NATIVE_SWEEPS = [{'name': 'quality_values', 'driver': 'qfloat', 'props': ['C18'], 'what': 'Mime::Q::fromFloat', 'link': False,
                   'argvs': [[repr(k / 100.0)] for k in range(101)] + [[repr(k / 100.0 + 0.004)] for k in range(100)] + [[repr(k / 100.0 + 0.006)] for k in range(100)] + [['-0.01'], ['1.01'], ['nan'], ['inf'], ['-inf'], ['1e300']]}]
+_TEXTS = ["text/html", "text/html; q=0.5; charset=utf-8", "application/vnd.foo+json", "application/x-ext", "a", "text/", "/", "text/html;q=", "text/html; q=1.5", "text/html; q=-0.1",
+          "TEXT/HTML", "text/plain; q=0.333", "text/plain; q=1", "text/plain; q=0.50", "*/*", "image/*; q=0.8", "application/json; charset", "application/json; charset=",
+          "text/html; q=0.5;", "text/html ; q=0.5", "application/schema+json", "application/vnd.a.b+xml; q=0.1; a=b; c=d", "text/html; q=1e300", "text/html; q=.5", "\x00/\xff", ""]
+NATIVE_SWEEPS += [
+    {'name': 'media_type_tables', 'driver': 'mime_rt', 'props': ['C18'], 'what': 'MediaType::toString + parseRaw over every (type, subtype, suffix) of the tables', 'argvs': [['tables']]},
+    {'name': 'media_type_quality', 'driver': 'mime_rt', 'props': ['C18'], 'what': 'Q::toString + parseRaw', 'argvs': [['q', v] for v in range(101)]},
+    {'name': 'media_type_texts', 'driver': 'mime_rt', 'props': ['C18', 'C03'], 'what': 'MediaType::fromRaw on unterminated text', 'argvs': [['text', t.encode('latin-1').hex() or '-'] for t in _TEXTS]},
+]
